@@ -3,7 +3,7 @@
    `json_roundtrip` and `sig_correct` say that loads inverts dumps and that a produced signature verifies.
    Every statement holds for every header, payload, key, allow-list and every such parameter instantiation. *)
 From Coq Require Import List NArith ZArith Bool Ascii String.
-From Authlib Require Import Base.Bytes Base.Base64 Base.PyVal Model.JWS Proofs.JWSP.
+From Authlib Require Import Base.Bytes Base.Base64 Base.PyVal Model.KeyPolicy Model.JWS Proofs.JWSP.
 Import ListNotations.
 Open Scope string_scope.
 Open Scope list_scope.
@@ -26,18 +26,18 @@ Notation sign_all := (sign_all json_dumps registered prepare_key sign).
 (* what serialize produces, deserialize accepts under the same key and returns exactly the header and payload *)
 Theorem compact_round_trip :
   forall allow private protected payload rawkey s,
-  json_roundtrip json_dumps json_loads -> sig_correct sign verify ->
+  json_roundtrip json_dumps json_loads -> sig_correct sign verify -> crit_check private protected = None ->
   serialize_compact allow private protected payload rawkey = JOk s ->
-  deserialize_compact allow s rawkey = JOk (protected, payload).
+  deserialize_compact allow private s rawkey = JOk (protected, payload).
 Proof. exact (compact_roundtrip_l json_dumps json_loads registered prepare_key sign verify). Qed.
 
 Theorem json_round_trip :
   forall allow private payload hs rawkey sigs,
   json_roundtrip json_dumps json_loads -> sig_correct sign verify ->
   (forall d, json_dumps d <> "") -> (forall alg k m, sign alg k m <> Some "") ->
-  Forall (fun pu => py_truthy (snd pu) = true -> exists d, snd pu = PDict d) hs ->
+  Forall (fun pu => (py_truthy (snd pu) = true -> exists d, snd pu = PDict d) /\ crit_check private (fst pu) = None) hs ->
   sign_all allow private (b64url_encode payload) hs rawkey = JOk sigs ->
-  deserialize_json allow (Some (b64url_encode payload)) true sigs rawkey =
+  deserialize_json allow private (Some (b64url_encode payload)) true sigs rawkey =
     JOk (map (fun pu => hmerge (fst pu) (match snd pu with PDict d => d | _ => [] end)) hs, payload).
 Proof. exact (json_roundtrip_l json_dumps json_loads registered prepare_key sign verify). Qed.
 
@@ -45,11 +45,11 @@ Proof. exact (json_roundtrip_l json_dumps json_loads registered prepare_key sign
    text before its last dot, under the algorithm its own header names; header and payload are the decodings of the
    two segments of that text *)
 Theorem compact_accepted_means_verified :
-  forall allow s rawkey h payload,
-  deserialize_compact allow s rawkey = JOk (h, payload) ->
+  forall allow private s rawkey h payload,
+  deserialize_compact allow private s rawkey = JOk (h, payload) ->
   exists pseg plseg sigseg sg alg k,
     rsplit_dot s = Some ((pseg ++ "." ++ plseg)%string, sigseg) /\ nodot pseg /\
-    extract_header pseg = JOk h /\ urlsafe_b64decode plseg = Some payload /\ urlsafe_b64decode sigseg = Some sg /\
+    extract_header pseg = JOk h /\ crit_check private h = None /\ urlsafe_b64decode plseg = Some payload /\ urlsafe_b64decode sigseg = Some sg /\
     prepare allow h rawkey = JOk (alg, k) /\
     verify alg k (pseg ++ "." ++ plseg)%string sg = true.
 Proof. exact (compact_accept_sound_l json_loads registered prepare_key verify). Qed.
@@ -66,11 +66,11 @@ Proof. exact (prepare_sound registered prepare_key). Qed.
 
 (* a JSON JWS is accepted only if EVERY signature verifies, each over its own protected segment and the payload *)
 Theorem json_accepted_means_every_signature_verified :
-  forall allow plseg general sigs rawkey hs payload,
-  deserialize_json allow plseg general sigs rawkey = JOk (hs, payload) ->
+  forall allow private plseg general sigs rawkey hs payload,
+  deserialize_json allow private plseg general sigs rawkey = JOk (hs, payload) ->
   exists seg, plseg = Some seg /\ urlsafe_b64decode seg = Some payload /\
     Forall2 (fun o h => exists protected alg k sg,
-               extract_header (oval (so_protected o)) = JOk protected /\
+               extract_header (oval (so_protected o)) = JOk protected /\ crit_check private protected = None /\
                h = hmerge protected (match so_header o with PDict d => d | _ => [] end) /\
                prepare allow h rawkey = JOk (alg, k) /\
                urlsafe_b64decode (oval (so_signature o)) = Some sg /\
@@ -81,14 +81,14 @@ Proof. exact (json_accept_sound_l json_loads registered prepare_key verify). Qed
    any accepted token consists of the same signed text and decodes to the same signature, hence yields the same
    header and payload -- a changed protected header or payload segment is refused *)
 Theorem tampered_token_is_refused_or_same_content :
-  forall allow s' rawkey h' payload' m0 sg0,
+  forall allow private s' rawkey h' payload' m0 sg0,
   (forall alg k m sg, verify alg k m sg = true -> m = m0 /\ sg = sg0) ->
-  deserialize_compact allow s' rawkey = JOk (h', payload') ->
+  deserialize_compact allow private s' rawkey = JOk (h', payload') ->
   exists sigseg, rsplit_dot s' = Some (m0, sigseg) /\ urlsafe_b64decode sigseg = Some sg0.
 Proof.
-  intros allow s' rawkey h' payload' m0 sg0 U H.
-  destruct (compact_accept_sound_l json_loads registered prepare_key verify _ _ _ _ _ H)
-    as [pseg [plseg [sigseg [sg [alg [k [R [_ [_ [_ [D [_ V]]]]]]]]]]]].
+  intros allow private s' rawkey h' payload' m0 sg0 U H.
+  destruct (compact_accept_sound_l json_loads registered prepare_key verify _ _ _ _ _ _ H)
+    as [pseg [plseg [sigseg [sg [alg [k [R [_ [_ [_ [_ [D [_ V]]]]]]]]]]]]].
   destruct (U _ _ _ _ V) as [E1 E2]. exists sigseg. rewrite R, D, E1, E2. auto.
 Qed.
 End C01.
@@ -108,8 +108,8 @@ Definition toy_sign (alg : string) (k : pv) (m : string) : option string := Some
 Definition toy_verify (alg : string) (k : pv) (m sg : string) : bool := String.eqb sg (pv_str k ++ m).
 Example toy_compact :
   match serialize_compact toy_dumps (fun a => String.eqb a "T") (fun _ k => Some k) toy_sign None None [("alg", PStr "T")] "hello" (PStr "K") with
-  | JOk s => deserialize_compact toy_loads (fun a => String.eqb a "T") (fun _ k => Some k) toy_verify None s (PStr "K") = JOk ([("alg", PStr "T")], "hello")
-             /\ deserialize_compact toy_loads (fun a => String.eqb a "T") (fun _ k => Some k) toy_verify None s (PStr "L") = JErr JBadSignature
+  | JOk s => deserialize_compact toy_loads (fun a => String.eqb a "T") (fun _ k => Some k) toy_verify None None s (PStr "K") = JOk ([("alg", PStr "T")], "hello")
+             /\ deserialize_compact toy_loads (fun a => String.eqb a "T") (fun _ k => Some k) toy_verify None None s (PStr "L") = JErr JBadSignature
   | JErr _ => False
   end.
 Proof. vm_compute. split; reflexivity. Qed.
